@@ -203,14 +203,24 @@ def _rxns_of(case):
 
 
 def _call(es, case, chain):
-    """-> (x, success, sane); the five ways the property names to obtain a composition."""
+    """-> (x, success, sane, fun); the five ways the property names to obtain a composition.
+    fun = max |residual| of the delegated solver's OWN equations at its final point (None if not
+    reported); only used to label a violation "stopped_at": non_root / root, never to decide one."""
     from chempy._eqsys import NumSysLin, NumSysLog
     init = dict(zip(case["names"], case["c0"]))
     kw = dict(case.get("kwargs") or {})
     if chain == "solve":
         # EqSystem.solve -> EqCalcResult -> _solve, default chain (NumSysLog, NumSysLin); takes no options
         res = es.solve(init)
-        return [float(v) for v in res.conc], bool(res.success), bool(res.sane)
+        out = [float(v) for v in res.conc], bool(res.success), bool(res.sane)
+        fun = None
+        if out[1] and out[2]:     # EqCalcResult keeps no residuals: repeat the call it makes to read them
+            import numpy as np
+            try:
+                fun = _fun_of(es._solve(np.array(case["c0"], dtype=float))[1])
+            except Exception:
+                fun = None
+        return out + (fun,)
     if chain == "Log":
         kw["NumSys"] = (NumSysLog,)
     elif chain == "LogLin":
@@ -218,21 +228,32 @@ def _call(es, case, chain):
     elif chain == "Lin":
         kw["NumSys"] = (NumSysLin,)
     x, sol, sane = es.root(init, **kw)
-    return [float(v) for v in x], bool(sol["success"]), bool(sane)
+    return [float(v) for v in x], bool(sol["success"]), bool(sane), _fun_of(sol)
+
+
+def _fun_of(sol):
+    try:
+        info = sol["intermediate_info"][-1] if "intermediate_info" in sol else sol
+        fun = info.get("fun")
+        if fun is None:
+            return None
+        return max(abs(float(v)) for v in fun)
+    except Exception:
+        return None
 
 
 def _oracle(case, x):
-    """List of (symptom, text): why x is NOT a genuine equilibrium composition (empty = genuine).
+    """List of (symptom, text, size of the defect): why x is NOT a genuine equilibrium composition (empty = genuine).
     symptom in: nonfinite, negative, element_lost (an element's whole amount has vanished from x: the
     least-squares solver stopped in a local minimum with some log-concentrations -> -inf), conservation,
     quotient, precipitation."""
     names, c0 = case["names"], case["c0"]
     bad = []
     if any(not math.isfinite(v) for v in x):
-        return [("nonfinite", "non-finite concentration %r" % (x,))]
+        return [("nonfinite", "non-finite concentration %r" % (x,), float("inf"))]
     for n, v in zip(names, x):
         if v < -X_NEG_TOL:
-            bad.append(("negative", "negative concentration %s=%.3e" % (n, v)))
+            bad.append(("negative", "negative concentration %s=%.3e" % (n, v), abs(v)))
     B, keys = P.comp_matrix(names)
     for row, k in zip(B, keys):
         d = sum(b * (xv - cv) for b, xv, cv in zip(row, x, c0))
@@ -243,7 +264,7 @@ def _oracle(case, x):
             lost = k != 0 and abs(tx) <= 1e-6 * t0
             bad.append(("element_lost" if lost else "conservation",
                         "%s not conserved: total changes by %.3e (scale %.3e)" %
-                        ("charge" if k == 0 else "element Z=%d" % k, d, sc)))
+                        ("charge" if k == 0 else "element Z=%d" % k, d, sc), abs(d)))
     rxns = _rxns_of(case)
     if case["kind"] == "precip":
         solid = case["solid"]
@@ -255,19 +276,22 @@ def _oracle(case, x):
         ksp = case["K"][0] if case.get("orient", "diss") == "diss" else 1.0 / case["K"][0]
         if xs > ABSENT:
             if not (ip > 0 and abs(math.log(ip) - math.log(ksp)) <= LNQ_TOL):
-                bad.append(("precipitation", "solid present (%.3e) but ion product %.6e != Ksp %.6e" % (xs, ip, ksp)))
+                bad.append(("precipitation", "solid present (%.3e) but ion product %.6e != Ksp %.6e" % (xs, ip, ksp),
+                            min(1.0, abs(math.log(ip) - math.log(ksp))) if ip > 0 else 1.0))
         else:
             if not ip <= ksp * (1 + LNQ_TOL):
-                bad.append(("precipitation", "solid absent (%.3e) but ion product %.6e > Ksp %.6e" % (xs, ip, ksp)))
+                bad.append(("precipitation", "solid absent (%.3e) but ion product %.6e > Ksp %.6e" % (xs, ip, ksp),
+                            min(1.0, ip / ksp - 1)))
     else:
         for (re_, pr), K, tag in zip(rxns, case["K"], case["rxns"]):
             nu = P.net_stoich(re_, pr, names)
             if any(n and v <= 0 for n, v in zip(nu, x)):
-                bad.append(("quotient", "Q undefined/zero for %s (non-positive participant)" % tag))
+                bad.append(("quotient", "Q undefined/zero for %s (non-positive participant)" % tag, 1.0))
                 continue
             lnq = sum(n * math.log(v) for n, v in zip(nu, x) if n)
             if abs(lnq - math.log(K)) > LNQ_TOL:
-                bad.append(("quotient", "Q/K - 1 = %.3e for %s" % (math.expm1(lnq - math.log(K)), tag)))
+                bad.append(("quotient", "Q/K - 1 = %.3e for %s" % (math.expm1(lnq - math.log(K)), tag),
+                            min(1.0, abs(lnq - math.log(K)))))
     return bad
 
 
@@ -283,20 +307,28 @@ def run_root_case(case):
             try:
                 if es is None:
                     es = P.build_eqsys(case["names"], _rxns_of(case), case["K"])
-                x, success, sane = _call(es, case, chain)
+                x, success, sane, fun = _call(es, case, chain)
             except Exception as e:  # chempy raising on a valid input is a violation
                 out.append({"chain": chain, "claimed": False, "holds": False, "exc": True, "symptom": "exception",
+                            "stopped_at": "unknown", "solver_residual": None,
                             "detail": "exception %s: %s" % (type(e).__name__, str(e)[:300])})
                 continue
             if success and sane:
                 bad = _oracle(case, x)
                 sym = [p for p in SYMPTOMS if any(b[0] == p for b in bad)]
+                # did the delegated solver stop where ITS OWN equations are not satisfied (residual comparable
+                # with the defect found here), or at a genuine root of equations that are wrong / of a wrong branch?
+                stopped = None
+                if bad:
+                    defect = max(b[2] for b in bad)
+                    stopped = "unknown" if fun is None else ("non_root" if fun > 1e-3 * defect else "root")
                 out.append({"chain": chain, "claimed": True, "holds": not bad, "exc": False,
-                            "symptom": sym[0] if sym else None,
+                            "symptom": sym[0] if sym else None, "stopped_at": stopped, "solver_residual": fun,
                             "detail": "success and sane reported for x=%r but %s" % (x, "; ".join(b[1] for b in bad))
                             if bad else "genuine"})
             else:
                 out.append({"chain": chain, "claimed": False, "holds": True, "exc": False, "symptom": None,
+                            "stopped_at": None, "solver_residual": fun,
                             "detail": "no claim (success=%s sane=%s)" % (success, sane)})
     return out
 
@@ -327,7 +359,7 @@ def run_brentq_case(case):
                 return False, "solve_equilibrium returned negative concentration %r" % (xb,)
         try:
             es = P.build_eqsys(names, [(re_, pr)], [K])
-            x, success, sane = _call(es, dict(case, kwargs={}), "default")
+            x, success, sane, _fun = _call(es, dict(case, kwargs={}), "default")
         except Exception as e:
             return False, "root raised %s: %s" % (type(e).__name__, str(e)[:300])
         if success and sane:
@@ -372,8 +404,11 @@ def run(tier, seed):
             calls += 1
             claims += r["claimed"]
             if not r["holds"]:
-                viol.append({"inputs": case, "chain": r["chain"], "symptom": r["symptom"],
-                             "detail": "[chain %s] %s" % (r["chain"], r["detail"])})
+                viol.append({"inputs": case, "chain": r["chain"], "symptom": r["symptom"], "stopped_at": r["stopped_at"],
+                             "solver_residual": r["solver_residual"],
+                             "detail": "[chain %s] %s%s" % (r["chain"], r["detail"],
+                                                           "" if r["solver_residual"] is None else
+                                                           " [solver's own max residual %.3e]" % r["solver_residual"])})
     # order: 1. anything that is not of a recorded kind; 2. one representative per recorded kind (the fixed
     # witnesses, so that the same cases are forwarded on every run); 3. the rest
     fixed_ids = [w["id"] for w in FIXED]
